@@ -17,7 +17,10 @@
 //! - [`Vote`] represents a vote of a specific type.
 //! - [`EpochInfo`] holds information about the epoch and all validators.
 
+#[cfg(not(alpenglow_verif))]
 mod block_producer;
+#[cfg(alpenglow_verif)]
+pub mod block_producer;
 mod blockstore;
 mod cert;
 mod epoch_info;
